@@ -69,6 +69,13 @@ theorem kwDynamicRef_absent (scope : List NodeId) (s : NodeId) (h : n.dynamicRef
     Spec.kwDynamicRef env sub scope s n j = some (some {}) := by
   simp [Spec.kwDynamicRef, h]
 
+theorem vocab_dynamicRef_absent (d : Draft) (h : n.dynamicRef = "") : (Spec.vocab d n).dynamicRef = "" := by
+  cases d <;> simp [Spec.vocab, h]
+
+theorem kwDynamicRef_vocab_absent (d : Draft) (scope : List NodeId) (s : NodeId) (h : n.dynamicRef = "") :
+    Spec.kwDynamicRef env sub scope s (Spec.vocab d n) j = some (some {}) :=
+  kwDynamicRef_absent env sub (Spec.vocab d n) j scope s (vocab_dynamicRef_absent n d h)
+
 theorem kwAllOf_absent (h : n.allOf = none) : Spec.kwAllOf sub n j = some (some {}) := by
   simp [Spec.kwAllOf, h]
 
@@ -267,7 +274,7 @@ theorem specBody_plain (env : Spec.Env) (rec : Spec.Rec) (scope : List NodeId) (
 /-- reduce `specBody` of a literal node without assertion keywords / `unevaluated*` to its one applicator keyword -/
 macro "plain_node" : tactic => `(tactic| (
   rw [specBody_plain _ _ _ _ _ _ (by constructor <;> rfl) (by constructor <;> rfl) (by simp)]
-  simp [kwList, kwRef_absent, kwDynamicRef_absent, kwAllOf_absent, kwAnyOf_absent, kwOneOf_absent, kwNot_absent,
+  simp [kwList, kwRef_absent, kwDynamicRef_absent, kwDynamicRef_vocab_absent, kwAllOf_absent, kwAnyOf_absent, kwOneOf_absent, kwNot_absent,
     kwIf_absent, kwItems_absent, kwContains_absent, kwContains_vocab_absent, kwProps_absent, kwPropertyNames_absent, kwDependentSchemas_absent]))
 
 section
@@ -299,7 +306,7 @@ theorem specBody_if (c : NodeId) (t e : Option NodeId) :
 theorem specBody_ref (r : String) (hd : env.draft = .d2020) :
     specBody env rec scope s j { ref := r } = Spec.kwRef env (rec (scope ++ [s])) s { ref := r } j := by
   rw [specBody_plain _ _ _ _ _ _ (by constructor <;> rfl) (by constructor <;> rfl) (by simp [hd])]
-  simp [kwList, kwDynamicRef_absent, kwAllOf_absent, kwAnyOf_absent, kwOneOf_absent, kwNot_absent,
+  simp [kwList, kwDynamicRef_absent, kwDynamicRef_vocab_absent, kwAllOf_absent, kwAnyOf_absent, kwOneOf_absent, kwNot_absent,
     kwIf_absent, kwItems_absent, kwContains_absent, kwContains_vocab_absent, kwProps_absent, kwPropertyNames_absent, kwDependentSchemas_absent]
 
 theorem specBody_props (ps pp : Option (List (String × NodeId))) (ap : Option NodeId) :
@@ -444,7 +451,7 @@ theorem specBody_assertion_node (env : Spec.Env) (rec : Spec.Rec) (scope : List 
   have e2 : Spec.kwUnevaluatedProps (rec (scope ++ [s])) (Spec.vocab env.draft n) j = fun _ => some (some {}) :=
     funext fun ev => kwUnevaluatedProps_absent _ _ j ev (hu.vocab _).props
   have hl : Spec.sequence (kwList env rec scope s j n) = some (List.replicate 12 (some {})) := by
-    simp [kwList, kwRef_absent _ _ n j s hn.ref, kwDynamicRef_absent _ _ n j _ s hn.dynamicRef,
+    simp [kwList, kwRef_absent _ _ n j s hn.ref, kwDynamicRef_vocab_absent _ _ n j _ _ s hn.dynamicRef,
       kwAllOf_absent _ n j hn.allOf, kwAnyOf_absent _ n j hn.anyOf, kwOneOf_absent _ n j hn.oneOf,
       kwNot_absent _ n j hn.not, kwIf_absent _ n j hn.if_, kwItems_absent _ _ n j hn.prefixItems hn.items hn.itemsArray,
       kwContains_absent _ (Spec.vocab env.draft n) j hn.contains,
